@@ -12,8 +12,9 @@ THEOREMS = ['Pistache.Promise.Props.' + t for t in (
                                                          'good_execAll', 'call_has_value', 'handler_gets_exception', 'settled_stays', 'requests_persist',
                                                          'reth_execAll', 'rethrow_same_exception', 'rethrow_chain_link',
                                                          'thrown_only_when_settled', 'settle_pending_never_throws', 'reject_pending_never_throws',
-                                                         'sched_execAll', 'fulfilled_continuation_ran_partial', 'rejected_continuation_told_partial')] + \
-           ['Pistache.Promise.' + t for t in ('inv_step', 'inv_run', 'own_step', 'own_run', 'sound_step', 'sound_run', 'good_exec', 'reth_step', 'reth_run', 'reth_exec', 'data_step', 'data_run', 'data_exec', 'all_spent', 'sched_step', 'sched_run')]
+                                                         'sched_execAll', 'fulfilled_continuation_ran_partial', 'rejected_continuation_told_partial',
+                                                         'quiescentFrom_of_wf', 'fulfilled_continuation_ran', 'rejected_continuation_told', 'rejected_handler_ran')] + \
+           ['Pistache.Promise.' + t for t in ('inv_step', 'inv_run', 'own_step', 'own_run', 'sound_step', 'sound_run', 'good_exec', 'reth_step', 'reth_run', 'reth_exec', 'data_step', 'data_run', 'data_exec', 'all_spent', 'sched_step', 'sched_run', 'term_step', 'run_quiescent', 'potential_le_fuel', 'settle_quiescent')]
 
 class Builder:
     """builds a well-typed program: tracks which promise ids exist, their C++ type, and which may still be used"""
